@@ -378,6 +378,93 @@ Proof.
     + split; [lia|]. split; [intros Ht; specialize (Hel Ht); lia|]. intros Ht. destruct (Htx Ht) as [Hq|Hq]; [left|right]; lia.
 Qed.
 
+(* ------------------------------------------------------------------ Node.child_after / child_before
+   (child, index, offset): the child is child number index, its tokens start at token index offset of the node's content,
+   and the position lies at the child's start or inside it (child_after) / inside it or at its end (child_before) *)
+Lemma child_after_located n pos c index offset :
+  child_after s n pos = Ok (Some c, index, offset) ->
+  nth_error (node_content n) index = Some c /\ At (ftoks (node_content n)) offset c /\
+  (offset = pos \/ offset < pos < offset + nsize c).
+Proof.
+  unfold child_after. destruct (find_index s (node_content n) pos) as [[i o]|] eqn:Efi; [|discriminate]. cbn [bind].
+  unfold child_at. destruct (nth_error (node_content n) i) as [c0|] eqn:Hc; [|discriminate].
+  intros H. inversion H; subst c0 i o. clear H.
+  destruct (find_index_spec s _ _ _ _ Efi) as (Hoff & Hidx & Hle & Hpos).
+  split; [exact Hc|]. split.
+  - exists (ftoks (firstn index (node_content n))), (ftoks (skipn (S index) (node_content n))). split; [apply ftoks_split_at; exact Hc|].
+    rewrite ftoks_length. symmetry. exact Hoff.
+  - destruct Hpos as [Hp|(c' & Hc' & Hp)]; [left; exact Hp|]. assert (c' = c) by congruence. subst c'. right. exact Hp.
+Qed.
+
+Lemma child_before_located n pos c index offset :
+  child_before s n pos = Ok (Some c, index, offset) ->
+  nth_error (node_content n) index = Some c /\ At (ftoks (node_content n)) offset c /\
+  offset <= pos /\ pos <= offset + nsize c.
+Proof.
+  unfold child_before. destruct (pos =? 0) eqn:E0; [discriminate|]. apply Nat.eqb_neq in E0.
+  destruct (find_index s (node_content n) pos) as [[i o]|] eqn:Efi; [|discriminate]. cbn [bind].
+  destruct (find_index_spec s _ _ _ _ Efi) as (Hoff & Hidx & Hle & Hpos).
+  destruct (o <? pos) eqn:Elt.
+  - apply Nat.ltb_lt in Elt. unfold child_at. destruct (nth_error (node_content n) i) as [c0|] eqn:Hc; [|discriminate].
+    intros H. inversion H; subst c0 index offset. split; [exact Hc|]. split.
+    + exists (ftoks (firstn i (node_content n))), (ftoks (skipn (S i) (node_content n))). split; [apply ftoks_split_at; exact Hc|].
+      rewrite ftoks_length. symmetry. exact Hoff.
+    + destruct Hpos as [Hp|(c' & Hc' & Hp)]; [lia|]. inversion Hc'; subst c'. lia.
+  - apply Nat.ltb_ge in Elt. destruct i as [|i']; [discriminate|]. unfold child_at.
+    destruct (nth_error (node_content n) i') as [c0|] eqn:Hc; [|discriminate].
+    intros H. inversion H; subst c0 index offset.
+    assert (Ho : o = pos) by (destruct Hpos as [Hp|(c' & _ & Hp)]; lia). subst o.
+    assert (Hsz : fsize (firstn (S i') (node_content n)) = fsize (firstn i' (node_content n)) + nsize c).
+    { rewrite (firstn_S_nth _ _ _ Hc), frag_size_app. cbn [frag_size]. lia. }
+    split; [exact Hc|]. split.
+    + exists (ftoks (firstn i' (node_content n))), (ftoks (skipn (S i') (node_content n))). split; [apply ftoks_split_at; exact Hc|].
+      rewrite ftoks_length. lia.
+    + lia.
+Qed.
+
+(* ------------------------------------------------------------------ ResolvedPos.shared_depth(pos)
+   the deepest ancestor level of the resolved position whose content span [start, end] contains pos *)
+Lemma shared_depth_go_spec r p : forall d k,
+  shared_depth_go s r p d = Ok k ->
+  k <= d /\
+  (k = 0 \/ exists st en, rp_start r k = Ok st /\ rp_end s r k = Ok en /\ st <= p <= en) /\
+  forall j, k < j -> j <= d -> forall st en, rp_start r j = Ok st -> rp_end s r j = Ok en -> ~ (st <= p <= en).
+Proof.
+  induction d as [|d IH]; intros k H; cbn [shared_depth_go] in H.
+  - inversion H; subst k. split; [lia|]. split; [left; reflexivity|]. intros j Hj1 Hj2. lia.
+  - destruct (rp_start r (S d)) as [st|] eqn:Es; [|discriminate]. cbn [bind] in H.
+    destruct (rp_end s r (S d)) as [en|] eqn:Ee; [|discriminate]. cbn [bind] in H.
+    destruct ((st <=? p) && (p <=? en)) eqn:E.
+    + inversion H; subst k. apply andb_prop in E. destruct E as [E1 E2]. apply Nat.leb_le in E1, E2.
+      split; [lia|]. split; [right; exists st, en; auto|]. intros j Hj1 Hj2. lia.
+    + destruct (IH k H) as (H1 & H2 & H3). split; [lia|]. split; [exact H2|].
+      intros j Hj1 Hj2 st' en' Hs He. destruct (Nat.eq_dec j (S d)) as [->|Hne].
+      * rewrite Es in Hs. rewrite Ee in He. inversion Hs; inversion He; subst st' en'.
+        apply andb_false_iff in E. destruct E as [E|E]; [apply Nat.leb_gt in E|apply Nat.leb_gt in E]; lia.
+      * apply (H3 j); [lia|lia|exact Hs|exact He].
+Qed.
+
+(* ------------------------------------------------------------------ ResolvedPos.block_range(other)
+   the depth of the range: the deepest level, from the start level down, whose node still ends at or after the other
+   position *)
+Lemma block_range_go_spec r opos : forall d k,
+  block_range_go s r opos d = Ok (Some k) ->
+  k <= d /\ (exists en, rp_end s r k = Ok en /\ opos <= en) /\
+  forall j, k < j -> j <= d -> forall en, rp_end s r j = Ok en -> en < opos.
+Proof.
+  induction d as [|d IH]; intros k H; cbn [block_range_go] in H.
+  - destruct (rp_end s r 0) as [en|] eqn:Ee; [|discriminate]. cbn [bind] in H.
+    destruct (opos <=? en) eqn:E; [|discriminate]. inversion H; subst k. apply Nat.leb_le in E.
+    split; [lia|]. split; [exists en; auto|]. intros j Hj1 Hj2. lia.
+  - destruct (rp_end s r (S d)) as [en|] eqn:Ee; [|discriminate]. cbn [bind] in H.
+    destruct (opos <=? en) eqn:E.
+    + inversion H; subst k. apply Nat.leb_le in E. split; [lia|]. split; [exists en; auto|]. intros j Hj1 Hj2. lia.
+    + apply Nat.leb_gt in E. destruct (IH k H) as (H1 & H2 & H3). split; [lia|]. split; [exact H2|].
+      intros j Hj1 Hj2 en' He. destruct (Nat.eq_dec j (S d)) as [->|Hne].
+      * rewrite Ee in He. inversion He; subst en'. exact E.
+      * apply (H3 j); [lia|lia|exact He].
+Qed.
+
 (* the walk reports nodes in document order: positions never decrease *)
 Fixpoint Mono (vs : list visit) : Prop :=
   match vs with [] => True | v :: r => Forall (fun w => v_pos v <= v_pos w) r /\ Mono r end.
